@@ -28,72 +28,83 @@ type registration struct {
 // registrations extracts (format key, constructor, constant arguments) from the writer's and the
 // reader's registries.
 func registrations(c *Ctx, rule string) (wr, rd []registration) {
-	extract := func(fname string, isStore func(d *declInfo, n ast.Node) (ast.Expr, ast.Expr)) []registration {
-		d := c.decl(rule, fname)
-		if d == nil {
+	// every store of a *constant* format key with a driver constructor into a package-level
+	// container of the package (sync.Map.Store(K, V) or M[K] = V), wherever it is written: in an
+	// init function, a once.Do closure, or a named function handed to once.Do
+	extract := func(pkgRel string) []registration {
+		pk := c.P.pkg(pkgRel)
+		if pk == nil {
+			c.undecided(rule, "anchor:"+pkgRel, "-", "package not loaded")
 			return nil
 		}
+		isPkgVar := func(e ast.Expr) bool {
+			id, ok := e.(*ast.Ident)
+			if !ok {
+				return false
+			}
+			pv, isVar := pk.TypesInfo.Uses[id].(*types.Var)
+			return isVar && pv.Pkg() != nil && pv.Parent() == pv.Pkg().Scope()
+		}
 		var out []registration
-		ast.Inspect(d.fd.Body, func(n ast.Node) bool {
-			k, v := isStore(d, n)
-			if k == nil {
-				return true
-			}
-			var kc *types.Const
-			switch x := k.(type) {
-			case *ast.SelectorExpr:
-				kc, _ = d.pkg.TypesInfo.Uses[x.Sel].(*types.Const)
-			case *ast.Ident:
-				kc, _ = d.pkg.TypesInfo.Uses[x].(*types.Const)
-			}
-			ce, ok := v.(*ast.CallExpr)
-			if kc == nil || !ok {
-				c.undecided(rule, fname+"#registration", c.P.Pos(n.Pos()), "registration with a non-constant key or a non-constructor value")
-				return true
-			}
-			f, _ := typeutil.Callee(d.pkg.TypesInfo, ce).(*types.Func)
-			r := registration{key: kc, pos: n.Pos(), where: fname}
-			if f != nil {
-				r.ctor = f.Name()
-			}
-			for _, a := range ce.Args {
-				if cv, ok := constOf(d.pkg, a); ok {
-					r.args = append(r.args, cv)
+		for _, f := range pk.Syntax {
+			for _, dd := range f.Decls {
+				fd, ok := dd.(*ast.FuncDecl)
+				if !ok || fd.Body == nil {
+					continue
 				}
+				obj, _ := pk.TypesInfo.Defs[fd.Name].(*types.Func)
+				fname := objName(obj)
+				ast.Inspect(fd.Body, func(n ast.Node) bool {
+					var k, v ast.Expr
+					switch x := n.(type) {
+					case *ast.CallExpr:
+						if sel, ok := x.Fun.(*ast.SelectorExpr); ok && sel.Sel.Name == "Store" && len(x.Args) == 2 && isPkgVar(sel.X) {
+							k, v = x.Args[0], x.Args[1]
+						}
+					case *ast.AssignStmt:
+						if len(x.Lhs) == 1 && len(x.Rhs) == 1 {
+							if ix, ok := x.Lhs[0].(*ast.IndexExpr); ok && isPkgVar(ix.X) {
+								k, v = ix.Index, x.Rhs[0]
+							}
+						}
+					}
+					if k == nil {
+						return true
+					}
+					var kc *types.Const
+					switch x := k.(type) {
+					case *ast.SelectorExpr:
+						kc, _ = pk.TypesInfo.Uses[x.Sel].(*types.Const)
+					case *ast.Ident:
+						kc, _ = pk.TypesInfo.Uses[x].(*types.Const)
+					}
+					ce, isCall := v.(*ast.CallExpr)
+					if kc == nil || !isCall || !strings.HasSuffix(kc.Type().String(), "formats.Format") {
+						return true // dynamic registration (RegisterSerializer(format, s)): not a table row
+					}
+					fn, _ := typeutil.Callee(pk.TypesInfo, ce).(*types.Func)
+					r := registration{key: kc, pos: n.Pos(), where: fname}
+					if fn != nil {
+						r.ctor = fn.Name()
+					}
+					for _, a := range ce.Args {
+						if cv, ok := constOf(pk, a); ok {
+							r.args = append(r.args, cv)
+						}
+					}
+					out = append(out, r)
+					return true
+				})
 			}
-			out = append(out, r)
-			return true
-		})
+		}
+		if len(out) == 0 {
+			c.undecided(rule, pkgRel+"#registrations", "-", "no constant-key driver registration found in the package")
+		}
 		return out
 	}
-	wr = extract("writer.ensureSerializersInitialized", func(d *declInfo, n ast.Node) (ast.Expr, ast.Expr) {
-		ce, ok := n.(*ast.CallExpr)
-		if !ok || len(ce.Args) != 2 {
-			return nil, nil
-		}
-		if sel, ok := ce.Fun.(*ast.SelectorExpr); ok && sel.Sel.Name == "Store" {
-			if id, ok := sel.X.(*ast.Ident); ok && id.Name == "serializers" {
-				return ce.Args[0], ce.Args[1]
-			}
-		}
-		return nil, nil
-	})
-	rd = extract("reader.init", func(d *declInfo, n ast.Node) (ast.Expr, ast.Expr) {
-		as, ok := n.(*ast.AssignStmt)
-		if !ok || len(as.Lhs) != 1 || len(as.Rhs) != 1 {
-			return nil, nil
-		}
-		if ix, ok := as.Lhs[0].(*ast.IndexExpr); ok {
-			if id, ok := ix.X.(*ast.Ident); ok && id.Name == "unserializers" {
-				return ix.Index, as.Rhs[0]
-			}
-		}
-		return nil, nil
-	})
-	return wr, rd
+	return extract("pkg/writer"), extract("pkg/reader")
 }
 
-// registryAgreement: C03-D4 / C06-D3 (first half).
 func registryAgreement(c *Ctx) (wr, rd []registration) {
 	const R = "registry-agreement"
 	c.rule(R, "for every registration K ↦ NewCDX(v, enc) the key constant contains the cyclonedx family token, `+enc` and ends in `;version=v`, and ParseVersion(v)/ParseEncoding(enc) succeed; K ↦ NewSPDX23() has the spdx token, `+json` and version 2.3; the reader and the writer register the same keys")
@@ -448,6 +459,7 @@ func runC06(c *Ctx) {
 	}
 
 	detectionResult(c)
+	sniffFileWholeStream(c)
 	formatAccessors(c)
 	wr, rd := registryAgreement(c)
 	writerSnifferAgreement(c, s, wr, rd)
@@ -465,6 +477,32 @@ func runC06(c *Ctx) {
 	untrustedStructPkgs = saved
 	noExitRule(c, []string{"formats.(*Sniffer).SniffReader", "formats.(*Sniffer).SniffFile"})
 	nilMapWriteRule(c, []string{"formats.(*Sniffer).SniffReader", "formats.(*Sniffer).SniffFile"})
+	// detection depends on the stream only: the sniffer keeps nothing on itself between calls
+	{
+		const RS = "detector-keeps-no-state"
+		c.rule(RS, "SniffReader and SniffFile (and what they call) write no memory reachable from their receiver: what one stream left behind cannot influence the next detection")
+		o2 := newOrigins(c.P)
+		for _, n := range []string{"formats.(*Sniffer).SniffReader", "formats.(*Sniffer).SniffFile"} {
+			fn := c.P.Func(n)
+			if fn == nil {
+				c.undecided(RS, "anchor:"+n, "-", "method not found")
+				continue
+			}
+			var w []mutation
+			if ss := o2.sums[fn]; ss != nil {
+				for _, m := range ss.muts {
+					if m.param == 0 {
+						w = append(w, m)
+					}
+				}
+			}
+			if len(w) > 0 {
+				c.bad(RS, n, c.P.Pos(w[0].pos), describeMuts(c, n, "receiver", w))
+			} else {
+				c.ok(RS, n, c.P.Pos(fn.Pos()), "the receiver is only read")
+			}
+		}
+	}
 	singleDispatch(c)
 	o := newOrigins(c.P)
 	infos := stateDiscipline(c, "package-state", []string{"pkg/formats"}, o)
